@@ -19,6 +19,8 @@ func init() {
 }
 
 func c06(c *Ctx) {
+	c.noPrematureTest("stream/page-size-never-refuses-a-snapshot", "litefs.(*Store).processLTXStreamFrame", `(?i)pagesize`, gs(GP("ltx.(*Header).IsSnapshot(@@)", false)),
+		"the replica's stream path tests the page size of an incoming file, if at all, only once the file is known not to be a snapshot", "a node holding the database with another page size (imported anew on the primary) is sent a snapshot: refusing it for its page size makes the node reconnect for ever")
 	p := c.P
 	sd := "http.(*Server).streamDB"
 	dbpos := "litefs.(*DB).Pos(litefs.(*Store).DB(p0.store, p3))"
@@ -244,8 +246,13 @@ func (c *Ctx) verifyBeforeDestroy(prefix string) {
 func (c *Ctx) pageSizeBeforeCreate(prefix string) {
 	p := c.P
 	wl := "litefs.(*DB).WriteLTXFileAt"
-	c.GuardedPaths(prefix+"/page-size-before-create", wl, p.PlainCalls("litefs.OS.Create"), [][]*Guard{{GP("(0 == p0.pageSize)", true), G(`\(.*\.PageSize == p0\.pageSize\)|\(p0\.pageSize == .*\.PageSize\)`, true)}}, 1,
-		"the incoming file is written only when the database's page size is unknown or equals the file's", "a file with another page size is published, the fatal apply fails in writeDatabasePage and the node exits (POST /tx from the lock holder, restore from backup)")
+	c.Guarded(prefix+"/snapshot-not-refused-for-page-size", wl, func(in ssa.Instruction) bool {
+		r, ok := in.(*ssa.Return)
+		return ok && strings.Contains(p.Render(returnedValue(r, 1)), "page size")
+	}, gs(GP("ltx.(*Header).IsSnapshot(@@)", false)), 1, "a file is refused for its page size only once it is known not to be a snapshot",
+		"F54: the backup service's snapshot of another history with another page size could never be adopted; every sync failed")
+	c.GuardedPaths(prefix+"/page-size-before-create", wl, p.PlainCalls("litefs.OS.Create"), [][]*Guard{{GP("(0 == p0.pageSize)", true), G(`\(.*\.PageSize == p0\.pageSize\)|\(p0\.pageSize == .*\.PageSize\)`, true), GP("ltx.(*Header).IsSnapshot(@@)", true)}}, 1,
+		"the incoming file is written only when the database's page size is unknown or equals the file's, or the file is a snapshot (which replaces the database whatever its page size, F54)", "a file with another page size is published, the fatal apply fails in writeDatabasePage and the node exits (POST /tx from the lock holder, restore from backup)")
 }
 
 // forwardedExtends: POST /tx hands the body to WriteLTXFileAt only after the
